@@ -459,6 +459,8 @@ def to_custom_lexer(g, rnd):
         b = rnd.choice(b' \n\t'); term[b] = rnd.randrange(len(g.terms)); ln[b] = 1      # a whitespace byte that is a term when not skipped
     g.lexspec = (term, ln)
     g.vtypes = [v if v != 'I' else 'V' for v in g.vtypes]
+    # helper/converting functors chosen for the old value types no longer fit: use plain logging functors there
+    g.rules = [Rule(r.lhs, r.rhs, r.prec, 'f' if (r.ftor[0] in 'ec' and r.ftor not in ('e',)) and r.ftor not in ('f', 'd', 'x') else r.ftor) for r in g.rules]
     g.note += '+customlexer'
     return g
 
